@@ -309,7 +309,7 @@ bool TypeAuditor::ViGlobalDeclaration(Cursor iter) {
       OnError(SemanticEID::globalStructure, iter(0).pos.finish);
       return false;
     }
-    const auto maybeType = ChildType(iter, 1);
+    const auto maybeType = ChildTypification(iter, 1);
     if (!maybeType.has_value()) {
       return false;
     } 
@@ -404,7 +404,7 @@ std::optional<Typification::Substitutes> TypeAuditor::CheckFuncArguments(Cursor 
 
   Typification::Substitutes substitutes{};
   for (Index child = 1; child < iter.ChildrenCount(); ++child) {
-    const auto childType = ChildType(iter, child);
+    const auto childType = ChildTypification(iter, child);
     if (!childType.has_value() || !std::holds_alternative<Typification>(childType.value())) {
       return std::nullopt;
     }
@@ -522,7 +522,7 @@ bool TypeAuditor::ViCard(Cursor iter) {
 }
 
 bool TypeAuditor::ViArithmetic(Cursor iter) {
-  const auto test1 = ChildType(iter, 0);
+  const auto test1 = ChildTypification(iter, 0);
   if (!test1.has_value()) {
     return false;
   } 
@@ -537,7 +537,7 @@ bool TypeAuditor::ViArithmetic(Cursor iter) {
     return false;
   } 
   
-  const auto test2 = ChildType(iter, 1);
+  const auto test2 = ChildTypification(iter, 1);
   if (!test2.has_value()) {
     return false;
   } 
@@ -566,7 +566,7 @@ bool TypeAuditor::ViArithmetic(Cursor iter) {
 }
 
 bool TypeAuditor::ViIntegerPredicate(Cursor iter) {
-  const auto test1 = ChildType(iter, 0);
+  const auto test1 = ChildTypification(iter, 0);
   if(!test1.has_value()) {
     return false;
   } 
@@ -581,7 +581,7 @@ bool TypeAuditor::ViIntegerPredicate(Cursor iter) {
     return false;
   } 
   
-  const auto test2 = ChildType(iter, 1);
+  const auto test2 = ChildTypification(iter, 1);
   if (!test2.has_value()) {
     return false;
   } 
@@ -625,13 +625,13 @@ bool TypeAuditor::ViQuantifier(Cursor iter) {
 }
 
 bool TypeAuditor::ViEquals(Cursor iter) {
-  const auto test1 = ChildType(iter, 0);
+  const auto test1 = ChildTypification(iter, 0);
   if (!test1.has_value()) {
     return false;
   }
   const auto& type1 = std::get<Typification>(test1.value());
 
-  const auto test2 = ChildType(iter, 1);
+  const auto test2 = ChildTypification(iter, 1);
   if (!test2.has_value()) {
     return false;
   }
@@ -708,7 +708,7 @@ bool TypeAuditor::ViImperative(Cursor iter) {
     }
   }
 
-  auto type = ChildType(iter, 0); 
+  auto type = ChildTypification(iter, 0); 
   if (!type.has_value()) {
     return false;
   }
@@ -724,7 +724,7 @@ bool TypeAuditor::ViIterate(Cursor iter) {
 }
 
 bool TypeAuditor::ViAssign(Cursor iter) {
-  const auto domain = ChildType(iter, 1);
+  const auto domain = ChildTypification(iter, 1);
   return domain.has_value()
     && VisitChildDeclaration(iter, 0, std::get<Typification>(domain.value()));
 }
@@ -732,7 +732,7 @@ bool TypeAuditor::ViAssign(Cursor iter) {
 bool TypeAuditor::ViRecursion(Cursor iter) {
   StartScope();
 
-  auto initType = ChildType(iter, 1);
+  auto initType = ChildTypification(iter, 1);
   if (!initType.has_value()) {
     return false;
   } 
@@ -743,7 +743,7 @@ bool TypeAuditor::ViRecursion(Cursor iter) {
   const bool isFull = iter->id == TokenID::NT_RECURSIVE_FULL;
   const auto iterationIndex = static_cast<Index>(isFull ? 3 : 2);
 
-  auto iterationValue = ChildType(iter, iterationIndex);
+  auto iterationValue = ChildTypification(iter, iterationIndex);
   if (!iterationValue.has_value()) {
     return false;
   } 
@@ -764,7 +764,7 @@ bool TypeAuditor::ViRecursion(Cursor iter) {
       if (!VisitChildDeclaration(iter, 0, std::get<Typification>(iterationValue.value()))) {
         return false;
       }
-      auto newIteration = ChildType(iter, iterationIndex);
+      auto newIteration = ChildTypification(iter, iterationIndex);
       if (!newIteration.has_value()) {
         return false;
       }
@@ -809,7 +809,7 @@ bool TypeAuditor::ViBoolean(Cursor iter) {
 bool TypeAuditor::ViTuple(Cursor iter) {
   std::vector<Typification> components{};
   for (Index child = 0; child < iter.ChildrenCount(); ++child) {
-    const auto type = ChildType(iter, child);
+    const auto type = ChildTypification(iter, child);
     if (!type.has_value()) {
       return false;
     }
@@ -819,13 +819,13 @@ bool TypeAuditor::ViTuple(Cursor iter) {
 }
 
 bool TypeAuditor::ViEnumeration(Cursor iter) {
-  auto test = ChildType(iter, 0);
+  auto test = ChildTypification(iter, 0);
   if (!test.has_value()) {
     return false;
   }
   auto& type = std::get<Typification>(test.value());
   for (Index child = 1; child < iter.ChildrenCount(); ++child) {
-    auto childType = ChildType(iter, child);
+    auto childType = ChildTypification(iter, child);
     if (!childType.has_value()) {
       return false;
     } 
@@ -920,7 +920,7 @@ bool TypeAuditor::ViProjectSet(Cursor iter) {
 
 bool TypeAuditor::ViProjectTuple(Cursor iter) {
   // T(pri(a)) = Pi(T(a))
-  const auto maybeArgument = ChildType(iter, 0);
+  const auto maybeArgument = ChildTypification(iter, 0);
   if (!maybeArgument.has_value()) {
     return false;
   }
@@ -963,7 +963,7 @@ bool TypeAuditor::ViFilter(Cursor iter) {
     return false;
   }
 
-  const auto maybeArgument = ChildType(iter, static_cast<Index>(iter.ChildrenCount() - 1));
+  const auto maybeArgument = ChildTypification(iter, static_cast<Index>(iter.ChildrenCount() - 1));
   if (!maybeArgument.has_value()) {
     return false;
   }
@@ -995,7 +995,7 @@ bool TypeAuditor::ViFilter(Cursor iter) {
 
   if (tupleParam) {
     for (Index child = 0; child + 1 < iter.ChildrenCount(); ++child) {
-      const auto param = ChildType(iter, child);
+      const auto param = ChildTypification(iter, child);
       if (!param.has_value()) {
         return false;
       }
@@ -1011,7 +1011,7 @@ bool TypeAuditor::ViFilter(Cursor iter) {
       }
     }
   } else {
-    const auto param = ChildType(iter, 0);
+    const auto param = ChildTypification(iter, 0);
     if (!param.has_value()) {
       return false;
     }
@@ -1032,7 +1032,7 @@ bool TypeAuditor::ViFilter(Cursor iter) {
 
 bool TypeAuditor::ViReduce(Cursor iter) {
   // T(red(a)) = B(DD(T(a)))
-  const auto maybeArgument = ChildType(iter, 0);
+  const auto maybeArgument = ChildTypification(iter, 0);
   if (!maybeArgument.has_value()) {
     return false;
   }
@@ -1083,6 +1083,19 @@ std::optional<ExpressionType> TypeAuditor::ChildType(Cursor iter, const Index in
   }
 }
 
+std::optional<ExpressionType> TypeAuditor::ChildTypification(Cursor iter, const Index index) {
+  auto result = ChildType(iter, index);
+  if (result.has_value() && !std::holds_alternative<Typification>(result.value())) {
+    OnError(
+      SemanticEID::typesNotCompatible,
+      iter(index).pos.start,
+      ToString(result.value())
+    );
+    return std::nullopt;
+  }
+  return result;
+}
+
 std::optional<Typification> TypeAuditor::ChildTypeDebool(Cursor iter, const Index index, const SemanticEID eid) {
   return ChildTypeDebool(iter, index, 
     [iter, eid, index, this](const std::string& typeString) {
@@ -1092,7 +1105,7 @@ std::optional<Typification> TypeAuditor::ChildTypeDebool(Cursor iter, const Inde
 }
 
 std::optional<Typification> TypeAuditor::ChildTypeDebool(Cursor iter, const Index index, DeboolCallback onError) {
-  const auto maybeResult = ChildType(iter, index);
+  const auto maybeResult = ChildTypification(iter, index);
   if (!maybeResult.has_value() || !std::holds_alternative<Typification>(maybeResult.value())) {
     return std::nullopt;
   }
